@@ -323,23 +323,27 @@ pub fn gen(seed: u64, cases: usize, flavour: &str, path: &str) {
         let client = if whole && stress != 3 && g.rng.chance(1, 6) { "http" } else { *g.rng.pick(&["test", "test", "eager", "lazy", "slow"]) };
         g.line(&format!("CLIENT {client}"));
         g.stats.bump(&format!("client_{client}"));
-        let nc = g.rng.below(4);
+        // now and then a long cost list (past 16 entries), each entry small
+        let long_costs = g.rng.chance(1, 40);
+        let nc = if long_costs { *g.rng.pick(&[16u64, 17, 18, 33]) } else { g.rng.below(4) };
         let mut cl = String::new();
         for _ in 0..nc {
             match g.rng.below(3) {
-                0 => cl += &format!(" P {}", fb(*g.rng.pick(&[0.25, 0.5, 0.01]))),
-                1 => cl += &format!(" C {}", fb(*g.rng.pick(&[0.0, 0.125, 0.01, 0.25]))),
-                _ => cl += &format!(" F {}", fb(*g.rng.pick(&[0.0, 1.0, 10.0, 2500.0]))),
+                0 => cl += &format!(" P {}", fb(if long_costs { *g.rng.pick(&[0.0, 0.01]) } else { *g.rng.pick(&[0.25, 0.5, 0.01]) })),
+                1 => cl += &format!(" C {}", fb(if long_costs { *g.rng.pick(&[0.0, 0.001, 0.01]) } else { *g.rng.pick(&[0.0, 0.125, 0.01, 0.25]) })),
+                _ => cl += &format!(" F {}", fb(if long_costs { *g.rng.pick(&[0.0, 1.0]) } else { *g.rng.pick(&[0.0, 1.0, 10.0, 2500.0]) })),
             }
         }
         g.line(&format!("COSTS {nc}{cl}"));
-        g.stats.bump(&format!("cost_list_len_{nc}"));
+        g.stats.bump(&format!("cost_list_len_{}", if nc > 6 { "16_or_more".to_string() } else { nc.to_string() }));
         let wide: Vec<String> = (0..12).map(|i| format!("S{i:02}")).collect();
         let syms: Vec<&str> = if stress == 2 { wide.iter().map(|x| x.as_str()).collect() } else { SYMS.to_vec() };
         // (price scale, cash scale): the last pair makes share counts of 1e10 and more
         let (mag, cmag): (f64, f64) = if stress == 3 { *g.rng.pick(&[(1048576.0, 1048576.0), (1.0 / 128.0, 1.0 / 128.0), (1073741824.0, 1073741824.0), (1.0 / 16777216.0, 16.0)]) } else { (1.0, 1.0) };
         // the clock in epoch milliseconds, a quarter of a second apart
-        let (date0, date_step) = if stress == 3 && g.rng.chance(1, 2) { (1_700_000_000_000i64, 250i64) } else { (100i64, 1i64) };
+        // or (long histories) in epoch seconds, one bar a day, with one symbol unquoted for weeks on end
+        let (date0, date_step) = if stress == 3 && g.rng.chance(1, 2) { (1_700_000_000_000i64, 250i64) } else if stress == 1 { (1_600_000_000i64, 86_400i64) } else { (100i64, 1i64) };
+        let gappy: Option<usize> = if stress == 1 { Some(g.rng.below(3) as usize) } else { None };
         let nd = if stress == 1 { 30 + g.rng.below(40) as i64 } else { 3 + g.rng.below(10) as i64 };
         g.line(&format!("DATA D {} {}", syms.len(), syms.join(" ")));
         let jump = g.rng.chance(1, 3) || liqf;
@@ -349,7 +353,8 @@ pub fn gen(seed: u64, cases: usize, flavour: &str, path: &str) {
             let mut l = String::new();
             let mut nq = 0;
             for (si, s) in syms.iter().enumerate() {
-                if d == 0 || !g.rng.chance(1, 5) {
+                let long_gap = gappy == Some(si) && d >= 2 && d < nd - 3;
+                if !long_gap && (d == 0 || !g.rng.chance(1, 5)) {
                     let top = if jump && d >= 2 && g.rng.chance(1, 2) { 400 } else { 100 };
                     let mut bid = (if whole { (g.rng.below(top) + 1) as f64 * 0.5 } else { (g.rng.below(top * 100) + 1) as f64 * 0.013 }) * mag;
                     if flat_prices {
@@ -397,6 +402,26 @@ pub fn gen(seed: u64, cases: usize, flavour: &str, path: &str) {
             g.line("CHECK");
             g.line("CHECK");
             g.stats.bump("stress_more_than_1024_orders_between_checks");
+        }
+        if let Some(si) = gappy {
+            // hold the symbol that is about to go unquoted
+            g.line(&format!("DEP {}", fb(100000.0)));
+            g.line(&format!("SEND 1 {} {} -", syms[si], fb(10.0)));
+            g.line("CHECK");
+        }
+        if stress == 4 {
+            // after the burst: go flat and re-open, then trade something else (a log of hundreds of trades by now)
+            g.line(&format!("SEND 0 {} held:{} -", syms[0], syms[0]));
+            g.line("CHECK");
+            g.line(&format!("SEND 1 {} {} -", syms[0], fb(10.0)));
+            g.line("CHECK");
+            // ... and a second, smaller burst in another symbol, so that whatever is kept per block of trades (64, 128,
+            // 256) closes a block after the position was re-opened
+            for _ in 0..(130 + g.rng.below(140)) {
+                g.line(&format!("~SEND 1 {} {} -", syms[1], fb(1.0)));
+            }
+            g.line("CHECK");
+            g.line("CHECK");
         }
         let len = if stress == 1 { 100 + g.rng.below(150) } else if stress == 4 { 3 + g.rng.below(8) } else { 5 + g.rng.below(40) };
         for _ in 0..len {
@@ -472,7 +497,8 @@ pub fn gen(seed: u64, cases: usize, flavour: &str, path: &str) {
                             3 => fb(0.1),
                             4 => fb(1.0),
                             5 => fb(0.001),
-                            _ => format!("cur:{s}"),
+                            // exactly on target, or off it by a sliver of the portfolio (a gap of a few shares of a cheap asset)
+                            _ => match g.rng.below(4) { 0 => format!("cur:{s}+{}", fb(1e-10)), 1 => format!("cur:{s}+{}", fb(-1e-10)), _ => format!("cur:{s}") },
                         };
                         l += &format!(" {s} {w}");
                     }
@@ -565,9 +591,10 @@ fn run_case<C: UistClient + StateView>(brkr: &mut UistBroker<C>, id: BacktestId,
                     let sym = t[2 + 2 * k];
                     let tok = t[3 + 2 * k];
                     let v = if let Some(s) = tok.strip_prefix("cur:") {
-                        // the weight at which the position is exactly on target
+                        // the weight at which the position is exactly on target (plus an optional offset)
+                        let (s, off) = match s.split_once('+') { Some((a, b)) => (a, pf(b)), None => (s, 0.0) };
                         let lv = brkr.get_liquidation_value();
-                        brkr.get_position_value(s).unwrap_or(0.0) / lv
+                        brkr.get_position_value(s).unwrap_or(0.0) / lv + off
                     } else {
                         pf(tok)
                     };
